@@ -11,8 +11,8 @@ W_BASE = {'add_node': 2, 'remove_node': 2, 'link': 3, 'add_att': 2, 'remove_att'
           'set_tags': 0.3, 'set_extras': 0.3}
 
 PROFILES = {
-    'C08': dict(weights={**{k: 0 for k in W_BASE}, 'reorder': 1}, n_nodes=(2, 7), n_links=(1, 14), n_atts=(0, 0),
-                n_steps=(0, 1), fresh=True),
+    'C08': dict(weights={**{k: 0 for k in W_BASE}, 'reorder': 1, 'compromise': 1}, n_nodes=(2, 7), n_links=(1, 14), n_atts=(0, 2),
+                n_steps=(0, 3), fresh=True),
     'C09': dict(weights=W_BASE, n_steps=(2, 14)),
     'C11': dict(weights={**{k: 0 for k in W_BASE}, 'compromise': 6, 'undo': 5, 'add_att': 2, 'remove_att': 3,
                          'attach': 2, 'remove_node': 0.5, 'add_node': 0.5, 'link': 0.5, 'copy': 0.3},
@@ -321,7 +321,9 @@ def run_with_predicates(pid, impl, ops, per_case_timeout=10):
                 pre = (len(w.graph.attackers), dict(w.graph._full_name_to_node))
             if pid == 'C14' and k == 'copy':
                 pre = (w.graph, w.graph._to_dict(), w.graph.next_node_id, w.graph.next_attacker_id,
-                       sorted(w.graph._id_to_node), sorted(w.graph._full_name_to_node), sorted(w.graph._id_to_attacker))
+                       sorted(w.graph._id_to_node), sorted(w.graph._full_name_to_node), sorted(w.graph._id_to_attacker),
+                       [(n.id, [c.id for c in n.children], [q.id for q in n.parents], [a.id for a in n.compromised_by]) for n in w.graph.nodes],
+                       [(a.id, [n.id for n in a.entry_points], [n.id for n in a.reached_attack_steps]) for a in w.graph.attackers])
                 # side experiment (not part of the history): an asset of the shared model is renamed after the nodes were
                 # added; a copy taken now must still answer the lookups as the original does
                 named = [a for a in w.assets.values() if any(n.asset is a for n in w.graph.nodes)]
@@ -390,6 +392,10 @@ def run_with_predicates(pid, impl, ops, per_case_timeout=10):
                     for al in w.aliased(): viol.append((i, f'mutable data shared between nodes {al}'))
                     g2 = w.graph
                     if g2._to_dict() != pre[1]: viol.append((i, 'the copy does not serialize like the original'))
+                    if [(n.id, [c.id for c in n.children], [q.id for q in n.parents], [a.id for a in n.compromised_by]) for n in g2.nodes] != pre[7]:
+                        viol.append((i, 'the child / parent / compromised-by lists of the copy are not those of the original'))
+                    if [(a.id, [n.id for n in a.entry_points], [n.id for n in a.reached_attack_steps]) for a in g2.attackers] != pre[8]:
+                        viol.append((i, 'the entry points / reached steps of the copied attackers are not those of the original'))
                     if (g2.next_node_id, g2.next_attacker_id) != (pre[2], pre[3]): viol.append((i, 'the copy has different id counters'))
                     if (sorted(g2._id_to_node), sorted(g2._full_name_to_node), sorted(g2._id_to_attacker)) != (pre[4], pre[5], pre[6]):
                         viol.append((i, 'the copy answers different lookups'))
